@@ -152,6 +152,10 @@ type HistCase struct {
 	Blocks  bool       `json:"blocks"` // also run ApplyBlock on empty blocks and compare
 	Probes  bool       `json:"probes"` // ValidateHeader on one-condition mutants at every height
 	Seed    uint64     `json:"seed"`
+	// SubMs, when it has one entry per step, replaces the timestamp profile: every timestamp is SubMs[i] milliseconds
+	// (1..3000) after the previous one, i.e. the chain carries sub-second timestamps (a miner stamping time.Now()) that
+	// strictly increase, which header validation always permits. Only used without Probes.
+	SubMs []int32 `json:"sub_ms,omitempty"`
 }
 
 const (
@@ -713,14 +717,30 @@ func checkHistory(c HistCase) error {
 	gen := net.GenesisState()
 	sH, sB := gen, gen
 	var hist []int64
+	var histMs []int64 // milliseconds of each timestamp (all zero unless the case carries sub-second timestamps)
 	var parentID types.BlockID
 
 	for i := 0; i <= len(c.Steps); i++ {
 		h := uint64(i)
+		curMs := int64(0)
 		var ts int64
 		var target time.Time
+		sub := len(c.SubMs) == len(c.Steps) && len(c.Steps) > 0 && !c.Probes
 		if i == 0 {
 			ts = c.Genesis
+		} else if sub {
+			ms := int64(c.SubMs[i-1])
+			if ms < 1 || ms > 3000 {
+				return stats.Failf("", "harness: sub-second step outside 1..3000 ms")
+			}
+			full := hist[i-1]*1000 + histMs[i-1] + ms
+			ts = full / 1000
+			curMs = full % 1000
+			anc := 0
+			if i-1 > 1000 {
+				anc = i - 1 - 1000
+			}
+			target = time.Unix(hist[anc], histMs[anc]*1e6)
 		} else {
 			ts = nextTS(hist, n.IntervalS, c.Steps[i-1])
 			// what a node supplies: the timestamp of the ancestor 1000 blocks before the
@@ -739,14 +759,14 @@ func checkHistory(c HistCase) error {
 		var hdr types.BlockHeader
 		var blk types.Block
 		if c.Blocks {
-			blk = types.Block{ParentID: parentID, Nonce: nonce, Timestamp: time.Unix(ts, 0),
+			blk = types.Block{ParentID: parentID, Nonce: nonce, Timestamp: time.Unix(ts, curMs*1e6),
 				MinerPayouts: []types.SiacoinOutput{{Address: minerAddr, Value: sB.BlockReward()}}}
 			if i > 0 && (h >= n.Require || (h >= n.Allow && mix(c.Seed, h, 3)%2 == 0)) {
 				blk.V2 = &types.V2BlockData{Height: h, Commitment: sB.Commitment(minerAddr, nil, nil)}
 			}
 			hdr = blk.Header()
 		} else {
-			hdr = types.BlockHeader{ParentID: parentID, Nonce: nonce, Timestamp: time.Unix(ts, 0), Commitment: mixHash(c.Seed, h)}
+			hdr = types.BlockHeader{ParentID: parentID, Nonce: nonce, Timestamp: time.Unix(ts, curMs*1e6), Commitment: mixHash(c.Seed, h)}
 		}
 
 		old := viewOf(sH)
@@ -807,8 +827,9 @@ func checkHistory(c HistCase) error {
 			return stats.Failf("C13/index", "height %d: Index = %v, want height %d id %v", h, nH.Index, h, id)
 		}
 		hist = append(hist, ts)
+		histMs = append(histMs, curMs)
 		for k := 0; k < 11 && k <= i; k++ {
-			if got := nH.PrevTimestamps[k]; got.Unix() != hist[i-k] || got.Nanosecond() != 0 {
+			if got := nH.PrevTimestamps[k]; got.Unix() != hist[i-k] || int64(got.Nanosecond()) != histMs[i-k]*1e6 {
 				return stats.Failf("C13/prev-timestamps", "height %d: PrevTimestamps[%d] = %d, history says %d", h, k, got.Unix(), hist[i-k])
 			}
 		}
